@@ -189,6 +189,10 @@ type dpFailure struct {
 }
 
 func dpClassify(err error) dpFailure {
+	// whoever receives the error prints it: rendering must work (a ParseError without its File would not)
+	_ = err.Error()
+	var rie *dictionary.RecursiveIncludeError
+	errors.As(err, &rie)
 	pe, ok := err.(*dictionary.ParseError)
 	if !ok || pe == nil {
 		var moe *memOpenError
